@@ -2,6 +2,7 @@
 
 usage: pydrv_tdgen.py replay <cases.json> <out.json>     TLC-enumerated step functions through the real classes with a fake tzinfo
        pydrv_tdgen.py real <spec.json> <out.json>        real zones of the installed library; the library's own transition table
+       pydrv_tdgen.py zst <spec.json> <out.json>         tools/validator/zstdgenerator.py on the zones of tools/zonedbpy
 """
 import datetime as dtm
 import json
@@ -196,6 +197,59 @@ def real_zone(args):
                   'full_items': items if full else None}
 
 
+def zst_zone(args):
+    """tools/validator/zstdgenerator.py (transitions from ZoneSpecifier, values from pytz) on one zone of tools/zonedbpy:
+    an A item one second before and a B item at every ZoneSpecifier transition starting in a year of the range, twelve
+    monthly samples and one year-end sample per year, every item equal to what pytz reports at its epoch"""
+    zone, start, until = args
+    import pytz
+    from validator.zstdgenerator import TestDataGenerator as ZG
+    from zonedb.zone_specifier import ZoneSpecifier
+    from zonedbpy import zone_infos, zone_policies
+    zi = zone_infos.ZONE_INFO_MAP.get(zone) or next((v for v in zone_infos.ZONE_INFO_MAP.values() if v['name'] == zone), None)
+    if zi is None:
+        return zone, {'missing': True}
+    g = ZG(zone_infos.ZONE_INFO_MAP, zone_policies.ZONE_POLICY_MAP, start, until)
+    try:
+        items = g._create_test_data_for_zone(zone, zi)
+    except Exception as e:
+        return zone, {'error': '%s: %s' % (type(e).__name__, e)}
+    if items is None:
+        return zone, {'missing': True}
+    by_epoch = {}
+    for it in items:
+        by_epoch.setdefault(it.epoch, []).append(it)
+    problems = []
+    zs = ZoneSpecifier(zi)
+    ntr = 0
+    for y in range(start, until):
+        zs.init_for_year(y)
+        for t in zs.transitions:
+            if t.startDateTime.y != y:
+                continue
+            ntr += 1
+            e = t.startEpochSecond
+            if not any(i.type == 'A' for i in by_epoch.get(e - 1, [])) or not any(i.type == 'B' for i in by_epoch.get(e, [])):
+                if len(problems) < 4:
+                    problems.append('no A/B pair of items at the ZoneSpecifier transition at epoch %d (year %d)' % (e, y))
+    tz = pytz.timezone(zone)
+    for it in items:
+        d = dtm.datetime.fromtimestamp(it.epoch + 946684800, tz=UTC).astimezone(tz)
+        want = (int(d.utcoffset().total_seconds()), int((d.dst() or dtm.timedelta(0)).total_seconds()), d.year, d.month, d.day, d.hour, d.minute, d.second)
+        got = (it.total_offset, it.dst_offset, it.y, it.M, it.d, it.h, it.m, it.s)
+        if got != want and len(problems) < 4:
+            problems.append('item at epoch %d holds %s, pytz reports %s' % (it.epoch, got, want))
+    for y in range(start, until):
+        firsts = {(i.M) for i in items if i.type in 'SAB' and i.y == y and i.d == 1 and i.h == 0 and i.m == 0 and i.s == 0}
+        loc = lambda mth: any(i.y == y and i.M == mth and i.d == 1 and i.h <= 2 for i in items)
+        miss = [mth for mth in range(1, 13) if not loc(mth)]
+        if miss and len(problems) < 4:
+            problems.append('year %d: no sample item on the first of months %s' % (y, miss))
+        if not any(i.y == y and i.M == 12 and i.d == 31 and i.h >= 22 for i in items) and len(problems) < 4:
+            problems.append('year %d: no year-end sample' % y)
+    return zone, {'items': len(items), 'transitions': ntr, 'problems': problems}
+
+
 def main():
     mode = sys.argv[1]
     spec = json.load(open(sys.argv[2]))
@@ -204,6 +258,12 @@ def main():
         if mode == 'replay':
             jobs = [(spec['flavour'], spec['year'], c) for c in spec['cases']]
             out['results'] = pool.map(replay_case, jobs, chunksize=8)
+        elif mode == 'zst':
+            zl = spec['zones']
+            if not zl:
+                from zonedbpy import zone_infos as _zi
+                zl = sorted(v['name'] for v in _zi.ZONE_INFO_MAP.values())
+            out['zones'] = dict(pool.map(zst_zone, [(z, spec['start'], spec['until']) for z in zl], chunksize=4))
         else:
             jobs = [(spec['flavour'], z, spec['start'], spec['until'], spec['interval'], bool(spec.get('full'))) for z in spec['zones']]
             out['zones'] = dict(pool.map(real_zone, jobs, chunksize=4))
